@@ -453,6 +453,14 @@ class PathMgr:
             if z3.is_and(x):
                 todo.extend(x.children())
                 continue
+            if z3.is_eq(x) and x.arg(0).sort() == smt.I:
+                # cls_of(r(t)) == <class id>: exact class of t
+                for a, b in ((x.arg(0), x.arg(1)), (x.arg(1), x.arg(0))):
+                    if z3.is_int_value(b) and z3.is_app(a) and a.decl().name() == 'cls_of' and \
+                            z3.is_app(a.arg(0)) and a.arg(0).decl().name() == 'r':
+                        K = self.static_objs.get(b.as_long())
+                        if isinstance(K, ClassInfo):
+                            self.known_cls[a.arg(0).arg(0).get_id()] = K
             if z3.is_eq(x) and x.arg(0).sort() == Val:
                 for a, b in ((x.arg(0), x.arg(1)), (x.arg(1), x.arg(0))):
                     # a havoc / fresh constant assumed equal to a term: reads are canonicalised to the term
